@@ -353,3 +353,98 @@ func inLoopOf(header, blk *ssa.BasicBlock) bool {
 	}
 	return false
 }
+
+// localStructField resolves the value that field path (e.g. "Validity", "NotBefore") of the
+// struct value v holds, when v is (a load of) a local variable that is filled by field stores
+// and/or whole assignments of other such locals (composite literals, copies). It follows the
+// unique store that supplies the field; nil when the value is not determined that way.
+func localStructField(v ssa.Value, path []string, depth int) ssa.Value {
+	if depth > 8 {
+		return nil
+	}
+	if len(path) == 0 {
+		// a register value, unless it is itself a load of a local's field
+		u, ok := v.(*ssa.UnOp)
+		if !ok || u.Op != token.MUL {
+			return v
+		}
+		if _, isFA := u.X.(*ssa.FieldAddr); !isFA {
+			return v
+		}
+		if _, isLocal := rootAlloc(u.X).(*ssa.Alloc); !isLocal {
+			return v
+		}
+	}
+	switch x := v.(type) {
+	case *ssa.Field:
+		// (struct value).f: resolve the base with the field prepended
+		return localStructField(x.X, append([]string{fieldNameOf(x.X.Type(), x.Field)}, path...), depth+1)
+	case *ssa.UnOp:
+		if x.Op != token.MUL {
+			return nil
+		}
+		// load of (a field of) a local
+		var pre []string
+		addr := x.X
+		for {
+			fa, ok := addr.(*ssa.FieldAddr)
+			if !ok {
+				break
+			}
+			pre = append([]string{fieldNameOf(fa.X.Type(), fa.Field)}, pre...)
+			addr = fa.X
+		}
+		al, ok := addr.(*ssa.Alloc)
+		if !ok {
+			return nil
+		}
+		full := append(append([]string{}, pre...), path...)
+		// stores into al: at a prefix of full (the rest is resolved inside the stored value), or below
+		type cand struct {
+			val  ssa.Value
+			rest []string
+		}
+		var cands []cand
+		var walk func(a ssa.Value, at []string) bool
+		walk = func(a ssa.Value, at []string) bool {
+			for _, ref := range ana.Referrers(a) {
+				switch y := ref.(type) {
+				case *ssa.Store:
+					if y.Addr != a {
+						continue
+					}
+					// at must be a prefix of full
+					if len(at) <= len(full) && strings.Join(at, ".") == strings.Join(full[:len(at)], ".") {
+						cands = append(cands, cand{y.Val, full[len(at):]})
+					}
+				case *ssa.FieldAddr:
+					nm := fieldNameOf(y.X.Type(), y.Field)
+					na := append(append([]string{}, at...), nm)
+					// only paths compatible with full matter
+					if len(na) <= len(full) && strings.Join(na, ".") == strings.Join(full[:len(na)], ".") {
+						if !walk(y, na) {
+							return false
+						}
+					}
+				case *ssa.UnOp, *ssa.DebugRef:
+				case ssa.CallInstruction:
+					return false // the address escapes
+				}
+			}
+			return true
+		}
+		if !walk(al, nil) || len(cands) != 1 {
+			return nil
+		}
+		return localStructField(cands[0].val, cands[0].rest, depth+1)
+	}
+	return nil
+}
+
+// resolveLocal: a load of a local struct's field is replaced by the value stored there.
+func resolveLocal(v ssa.Value) ssa.Value {
+	if r := localStructField(v, nil, 0); r != nil {
+		return r
+	}
+	return v
+}
